@@ -534,3 +534,11 @@ _splice("C19", "and every call of every history of in-place writes, rebinding wr
         "and every call of every history of in-place writes, rebinding writes, lock cycles reads the current content (refuted for the unrepaired rebinding write); "
         "un-batching a shared (memoised or in_dims=None) view any number of times with any out_dims gives every result its own names list with None at its own "
         "out_dim and leaves the view unchanged (refuted without the copy);")
+
+_append("C05", "Calls routed through a lazy stack to its members (set / key assignment / update / del_ / rename_key_ / select / exclude with tensor values; stacks of "
+               "stacks) are inside the model: the invariant and the frozen theorems hold over histories that include them (a call that raises half way has changed "
+               "unlocked members only: witness), a stack locked through lock_ or only through its members refuses them, and so does a member's own handle.")
+_splice("C05", "tensorclass, TensorDictParams, _SubTensorDict, NonTensorData and calls routed through a lazy stack to its members are judged by the oracle only;",
+        "tensorclass, TensorDictParams, _SubTensorDict, NonTensorData, lazy pop / popitem / stack[idx] = td / update from a lazy source are judged by the oracle only;", "note")
+_append("C09", "A stack that stays lazy under expand meets a higher-rank operand member-wise along the SHIFTED stack dim (theorem `lazy_expand_member`; unbinding "
+               "along the original dim is refuted by a witness).")
